@@ -38,7 +38,7 @@ def e2e_case(rec):
         if any(tc["env"][e] != "U" for e in ("X", "Y")):
             inline = "{environment: {" + ", ".join(f'{e}: "{val(e, tc["env"][e])}"' for e in ("X", "Y") if tc["env"][e] != "U") + "}}"
         eff = {e: highest([cli["env"][e], tc["env"][e], doc["env"][e], fmt["env"][e]]) for e in ("X", "Y")}
-        return fm, inline, [], "printf 'X=%s Y=%s\\n' \"$X\" \"$Y\"", [f"X={val('X', eff['X'])} Y={val('Y', eff['Y'])}"]
+        return fm, inline, [], "printf 'X=%s Y=%s\\n' \"$X\" \"$Y\"", [f"X={val('X', eff['X'])} Y={val('Y', eff['Y'])}"], 0
     if env_set or len(set_keys) != 1:
         return None
     k = next(iter(set_keys))
@@ -58,14 +58,32 @@ def e2e_case(rec):
         inline = "{output_stream: %s}" % name[sc(tc, k)] if sc(tc, k) != "U" else ""
         flags = (["--combine-output"] if sc(cli, k) == "B" else []) + compat
         exp = {"U": ["o"], "A": ["e"], "B": ["o", "e"]}[eff]
-        return fm, inline, flags, "printf 'o\\n'; printf 'e\\n' >&2", exp
+        return fm, inline, flags, "printf 'o\\n'; printf 'e\\n' >&2", exp, 0
     if k == "keep_crlf":
         name = {"A": "true", "B": "false"}
         fm = ["defaults:", f"  keep_crlf: {name[sc(doc, k)]}"] if sc(doc, k) != "U" else []
         inline = "{keep_crlf: %s}" % name[sc(tc, k)] if sc(tc, k) != "U" else ""
         flags = {"A": ["--keep-output-crlf"], "B": ["--no-keep-output-crlf"], "U": []}[sc(cli, k)] + compat
         exp = ["a\\r (escaped)"] if eff == "A" else ["a"]
-        return fm, inline, flags, "printf 'a\\r\\n'", exp
+        return fm, inline, flags, "printf 'a\\r\\n'", exp, 0
+    # keys that only the test case and the document defaults can set (no flag, no format default to realise)
+    if sc(cli, k) != "U" or sc(fmt, k) != "U":
+        return None
+    def two_layers(key, name):
+        fm = ["defaults:", f"  {key}: {name[sc(doc, k)]}"] if sc(doc, k) != "U" else []
+        inline = "{%s: %s}" % (key, name[sc(tc, k)]) if sc(tc, k) != "U" else ""
+        return fm, inline
+    if k == "strip_ansi_escaping":
+        fm, inline = two_layers(k, {"A": "true", "B": "false"})
+        return fm, inline, [], "printf 'a\\033[1mb\\n'", (["ab"] if eff == "A" else ["a\\x1b[1mb (escaped)"]), 0
+    if k == "skip_document_code":
+        # the command exits with the code IN EFFECT and its expectation does not match: only a skip makes the run succeed
+        fm, inline = two_layers(k, {"A": "7", "B": "9"})
+        return fm, inline, [], "exit " + {"A": "7", "B": "9", "U": "80"}[eff], ["NOT-THE-OUTPUT"], 0
+    if k == "timeout":
+        # 1 s or 6 s against a command of 2.5 s
+        fm, inline = two_layers(k, {"A": "1s", "B": "6s"})
+        return fm, inline, [], "sleep 2.5; echo done", ["done"], (50 if eff == "A" else 0)
     return None
 
 
@@ -73,7 +91,7 @@ def run_e2e(rec):
     case = e2e_case(rec)
     if case is None:
         return "skip"
-    fm, inline, flags, command, exp = case
+    fm, inline, flags, command, exp, want_exit = case
     root = tempfile.mkdtemp(prefix="scrut-verif-cfg-", dir=os.environ.get("VERIF_SCRATCH", "/tmp"))
     try:
         lines = (["---"] + fm + ["---", ""] if fm else []) + ["# t", "", "```scrut" + (" " + inline if inline else ""), "$ " + command] + exp + ["```", ""]
@@ -83,8 +101,10 @@ def run_e2e(rec):
             f.write("\n".join(lines))
         code, out, err, wall, pid = scenario.run_scrut([path] + flags, root)
         scenario.kill_group(pid)
-        if code != 0:
-            return f"fail(exit {code})"
+        if code != want_exit:
+            return f"fail(exit {code}, expected {want_exit})"
+        if want_exit != 0:
+            return "ok"
         # the same layers must be in effect in `scrut update`: a document that passes `scrut test <flags>` is left as it is
         before = open(path).read()
         env = dict(os.environ, TMPDIR=os.path.join(root, "tmp-upd"), NO_COLOR="1")
